@@ -21,7 +21,8 @@ func init() {
 			"R2 sort-before-yield: every slice handed to SliceSeq (or ranged over by a yielding literal) in ocimem and ociunify was sorted (slices.SortFunc/Sort, then optionally CompactFunc with the same comparator) after its last append, and ocimem's key filter is the strict test cmp(startAfter, k) < 0 with the same comparator it sorts with; " +
 			"R3 a producer return that is control-dependent on an `err != nil` test is preceded by a yield of that error, and a Seq-returning function bailing out under err != nil returns ErrorSeq(err): an iteration ends with an error, never silently short; " +
 			"R4 continuation key: the client pager's next request takes `last` from the final element of the page just parsed, stops only on a short page, and the server's Link is built from the final element of the truncated page; " +
-			"R5 the start-after cursor crosses the select, debug and unify wrappers unchanged (Sub: translated, decided under C13.R3).",
+			"R5 the start-after cursor crosses the select, debug and unify wrappers unchanged (Sub: translated, decided under C13.R3). " +
+			"R5 the start-after cursor reaches the request URL only through url.Values / url.QueryEscape.",
 		NotDecided: "ascending order, completeness across pages and de-duplication as value facts (which items a listing contains for given contents, page sizes and start points) are not decided; only the protocol and plumbing clauses above are.",
 		Technique:  "static analysis: CFG path search (no-yield-after-stop typestate), SSA provenance of sorted slices and continuation keys",
 	})
